@@ -336,7 +336,7 @@ def nnf_skolem(formulas):
     return out
 
 
-def prove(hyps, goal, timeout_ms=10000, rounds=3, want_model=False):
+def prove(hyps, goal, timeout_ms=10000, rounds=3, want_model=False, fallbacks=True):
     """Returns dict(status='proved'|'failed'|'unknown', backend, secs, n_inst, model)."""
     t0 = time.time()
     neg = z3.Not(goal)
@@ -366,6 +366,8 @@ def prove(hyps, goal, timeout_ms=10000, rounds=3, want_model=False):
     except Exception as e:  # normalisation outside the fragment: fall through to the native engines
         n_inst = -1
         model = 'instantiation-not-applicable: %s' % e
+    if not fallbacks:
+        return {'status': 'failed' if inst_verdict == 'sat' else 'unknown', 'backend': 'none', 'secs': time.time() - t0, 'n_inst': n_inst, 'model': model}
     # fall-back 1: z3's own quantifier engine
     fb = timeout_ms
     s = z3.Solver()
@@ -434,7 +436,7 @@ def work(item):
         fs = list(z3.parse_smt2_string(smt2))
         if is_cover:
             hyps = fs[:-1] if fs else []
-            r = prove(hyps, z3.BoolVal(False), timeout_ms=min(timeout_ms, 5000), rounds=2)
+            r = prove(hyps, z3.BoolVal(False), timeout_ms=min(timeout_ms, 5000), rounds=2, fallbacks=False)
             # cover succeeds when False is NOT derivable
             return name, {'status': 'cover-ok' if r['status'] != 'proved' else 'vacuous', 'backend': r['backend'], 'secs': r['secs'], 'n_inst': r['n_inst'], 'model': None}
         hyps, neg = fs[:-1], fs[-1]
